@@ -4,6 +4,8 @@ package knxnet
 
 import (
 	"net"
+
+	"github.com/vapourismo/knx-go/knx/cemi"
 )
 
 func init() {
@@ -15,7 +17,9 @@ func init() {
 // c16Frame builds a well-formed frame with symbolic fields; kind selects the service type.
 func c16Frame(kind int) (ServicePackable, []byte) {
 	var v ServicePackable
-	switch kind % 4 {
+	switch kind % 5 {
+	case 4:
+		v = &TunnelReq{Channel: nondetU8(), SeqNumber: nondetU8(), Payload: c02Cemi(9, 0, 3)} // L_Busmon.ind
 	case 0:
 		v = &TunnelRes{Channel: nondetU8(), SeqNumber: nondetU8(), Status: ErrCode(nondetU8())}
 	case 1:
@@ -149,13 +153,18 @@ func HarnessC16UDP(a []int) {
 		_, open := <-inbound
 		verifAssert("C16.udp.frame_arrives", open)
 	}
+	var gots []Service
 	for i := 0; i < K; i++ {
 		got, open := <-inbound
 		verifAssert("C16.udp.frame_arrives", open)
-		verifAssert("C16.udp.frame_equal_in_order", c16Same(want[i], got))
+		gots = append(gots, got)
 	}
 	_, open := <-inbound
 	verifAssert("C16.udp.closed_after_error", !open)
+	// compared only now: a decoded frame must not alias the receiver's reused datagram buffer
+	for i := 0; i < K; i++ {
+		verifAssert("C16.udp.frame_equal_in_order", c16Same(want[i], gots[i]))
+	}
 	verifQuiesce()
 	verifAssert("C16.udp.receiver_returned", returned)
 	verifCover("C16.udp.end")
@@ -343,4 +352,33 @@ func HarnessC16Origin(a []int) {
 	}
 	_, open = <-inbound
 	verifAssert("C16.origin.closed_after_error", !open)
+}
+
+func init() {
+	verifHarnesses["HarnessC16TCPBig"] = HarnessC16TCPBig
+}
+
+// HarnessC16TCPBig: a = {payload bytes}: one frame that is larger than bufio's default buffer
+// (a bus-monitor indication with a long raw payload) followed by a small one; both surface.
+func HarnessC16TCPBig(a []int) {
+	raw := make([]byte, a[0])
+	raw[0], raw[a[0]-1] = nondetU8(), nondetU8()
+	m := cemi.LBusmonInd(raw)
+	big := &RoutingInd{Payload: &m}
+	small, sb := c16Frame(0)
+	stream := append(AllocAndPack(big), sb...)
+	verifStream(stream, 0, 0)
+	inbound := make(chan Service)
+	go serveTCPSocket(&net.TCPConn{}, nil, inbound)
+	got, open := <-inbound
+	verifAssert("C16.tcpbig.arrives", open)
+	ri, ok := got.(*RoutingInd)
+	verifAssert("C16.tcpbig.kind", ok)
+	bm, ok := ri.Payload.(*cemi.LBusmonInd)
+	verifAssert("C16.tcpbig.payload", ok && len(*bm) == a[0] && (*bm)[0] == raw[0] && (*bm)[a[0]-1] == raw[a[0]-1])
+	got, open = <-inbound
+	verifAssert("C16.tcpbig.next_frame", open && c16Same(small, got))
+	_, open = <-inbound
+	verifAssert("C16.tcpbig.closed_after_eof", !open)
+	verifCover("C16.tcpbig.end")
 }
